@@ -1,5 +1,7 @@
 KERNELS = {'C16_matmul': dict(src='kernels/C16_matmul.cpp', flags=['-DNDEBUG', '-DV1ONLY']),
            'C16_matmulv2': dict(src='kernels/C16_matmul.cpp', flags=['-DNDEBUG', '-DV2ONLY'])}
+for _r in ('outer', 'vecdot', 'trace', 'dot', 'inner', 'kron', 'tensordot'):
+    KERNELS['C16_' + _r] = dict(src='kernels/C16_other.cpp', flags=['-DNDEBUG', '-DR_' + _r.upper()])
 US = ['in_data8.0:18', 'k_fill_u8.0:18']
 
 
@@ -19,9 +21,28 @@ HARNESSES = [
  dict(name='matmul_el', src='harnesses/C16.c', func='h_matmul_el', kernels=['C16_matmul'], unwind=6, bounds='view::matmul (v1, slicing implementation), hybrid operands; ' + EL,
       quick=[_sh((1, 3), (3, 1)), _sh((2, 3), (3, 2)), _sh((2, 1, 2), (2, 2))],
       thorough=[_sh((a, k), (k, b)) for a in (1, 2, 3) for k in (1, 2, 3) for b in (1, 2, 3)] + [_sh((2, 1, 2), (1, 2, 2)), _sh((1, 2, 2), (2, 2, 1)), _sh((2, 2), (2, 2, 2))]),
- dict(name='matmulv2_el', src='harnesses/C16.c', func='h_matmul_el', kernels=['C16_matmulv2'], unwind=6, bounds='view::matmulv2 (tile/reshape/transpose/multiply/sum pipeline), hybrid operands; ' + EL,
-      quick=[_sh((3,), (3, 2), V2=1), _sh((2, 3), (3,), V2=1), _sh((2, 2), (2, 2), V2=1)],
-      thorough=[_sh((k,), (k, b), V2=1) for k in (1, 2, 3) for b in (1, 2, 3)] + [_sh((a, k), (k,), V2=1) for k in (1, 2, 3) for a in (1, 2, 3)]),
+ dict(name='matmulv2_el', src='harnesses/C16.c', func='h_matmul_el', kernels=['C16_matmulv2'], unwind=6, optional=True, timeout=600, mem_gb=8,
+      bounds='view::matmulv2 (tile/reshape/transpose/multiply/sum pipeline), hybrid operands, the only implementation that compiles for rank-1 operands; ' + EL,
+      quick=[], thorough=[_sh((2,), (2, 1), V2=1), _sh((2,), (2, 1), V2=1, _backend='kissat'), _sh((2,), (2, 1), V2=1, _backend='cadical'), _sh((1, 2), (2,), V2=1), _sh((1, 2), (2, 1), V2=1)]),
+]
+
+
+def _o(routine, func, shapes_quick, shapes_thorough, what, **kw):
+    R = 'R_' + routine.upper()
+    mk = lambda t: _sh(t[0], t[1], **dict({R: 1}, **(t[2] if len(t) > 2 else {}))) if t[1] is not None else dict({k: v for k, v in _sh(t[0], ()).items() if k != 'NB'}, **{R: 1})
+    return dict(name=routine + '_el', src='harnesses/C16_other.c', func=func, kernels=['C16_' + routine], unwind=kw.pop('unwind', 6),
+                bounds='view::%s, hybrid operands; %s; ' % (routine, what) + EL, quick=[mk(t) for t in shapes_quick], thorough=[mk(t) for t in shapes_thorough], **kw)
+
+
+HARNESSES += [
+ _o('outer', 'h_outer', [((2,), (3,)), ((2, 2), (2,))], [((3,), (3,)), ((2, 2), (3,)), ((2,), (2, 2))], 'out[i,j] = a.flat[i]*b.flat[j]'),
+ _o('vecdot', 'h_vecdot', [((3,), (3,)), ((2, 3), (2, 3)), ((2, 3), (3,))], [((2, 3), (1, 3)), ((1, 2), (3, 2))], 'sum over the last axis of the broadcast product'),
+ _o('trace', 'h_trace', [((2, 3), None), ((2, 2, 2), None)], [((3, 3), None), ((3, 2), None), ((2, 3, 2), None)], 'offset 0, axes (0,1)'),
+ _o('dot', 'h_dotlike', [((3,), (3,)), ((2, 2), (2,)), ((2, 2), (2, 2))], [((2, 3), (3, 2)), ((2, 3), (3,))], 'np.dot'),
+ _o('inner', 'h_dotlike', [((3,), (3,)), ((2, 2), (2,)), ((2, 2), (2, 2))], [((2, 3), (2, 3)), ((2, 3), (3,))], 'np.inner'),
+ _o('kron', 'h_kron', [((2,), (2,)), ((2, 1), (1, 2))], [((2,), (3,)), ((2, 2), (2, 2))], 'np.kron of same-dim operands'),
+ _o('tensordot', 'h_tensordot', [((2,), (2,), {'AXES': 1}), ((2, 2), (2, 2), {'AXES': 1}), ((2, 2), (2, 2), {'AXES': 2})], [((2, 3), (3, 2), {'AXES': 1}), ((2, 3), (2, 3), {'AXES': 2})],
+    'integer axes (compile-time constant 1 or default 2)', unwind=18),
 ]
 OUTSIDE = []
 ASSUMPTIONS = []
